@@ -81,7 +81,9 @@ void FilteringAlgorithm::reboot()
 
 bool FilteringAlgorithm::teardown()
 {
+    std::lock_guard<std::mutex> lk(mtx_run_);
     teardown_ = true;
+    cv_run_.notify_one();
 
     return true;
 }
